@@ -2954,13 +2954,21 @@ func lemmaForwardSession(raw *rawEnvelope) (e *Session, e3 *Session, accepted bo
 //@ census [C17] senders Server.transportChan : none
 
 //@ func (*Server).consumeTransports
-//@   props C17
-//@   requires srv != nil && srv.config != nil && srv.mux != nil && ctx != nil
+//@   props C14 C17
+//@   requires serverConfigOK(srv) && ctx != nil  ## a configuration with its callbacks and option lists set (the defaults of NewServerConfig, or the builder's)
 //@   requires srv.config.Node.Name != "" && srv.config.Node.Domain != "" && srv.config.Node.Instance != ""
+//@   requires authClock <= recvClock && regClock <= recvClock  ## ghost call records: nothing was authenticated or registered for an envelope not yet received
 //@   modifies nothing
-//@   loop 0 invariant srv.config != nil && srv.mux != nil && srv.config.Node.Name != "" && srv.config.Node.Domain != "" && srv.config.Node.Instance != ""
+//@   loop 0 invariant serverConfigOK(srv) && ctx != nil && srv.config.Node.Name != "" && srv.config.Node.Domain != "" && srv.config.Node.Instance != "" && authClock <= recvClock && regClock <= recvClock
 //@   oncall [C17] NewServerChannel : a_sessionID != "" && a_serverNode == srv.config.Node
 
+// The serving goroutine: spawned with everything handleChannel requires (checked at the go
+// statement in consumeTransports, with the closure's captured variables), and it calls
+// handleChannel with exactly the channel created for this transport.
+//@ spec fn serverConfigOK(srv *Server) bool = srv != nil && srv.config != nil && srv.mux != nil && srv.config.CompOpts != nil && srv.config.EncryptOpts != nil && srv.config.Authenticate != nil && srv.config.Register != nil
 //@ func (*Server).consumeTransports$1
-//@   props C17
-//@   trusted the spawned goroutine runs handleChannel (verified separately) with the channel created for this transport
+//@   props C14 C17
+//@   requires serverConfigOK(srv) && ctx != nil
+//@   requires srvInv(c) && c.state == SessionStateNew && effStage(c.transport) == 0 && !c.startRcv.fired
+//@   modifies everything
+//@   oncall [C17] (*Server).handleChannel : a_c == c && a_srv == srv
